@@ -154,6 +154,8 @@ CONFIGS = {
     "DRP": ("derived", "reaction", "ia_param"),
     "VDS": ("ia_var", "derived", "surrogate"),
     "RRD": ("reaction", "reaction", "derived"),
+    "DRPD": ("derived", "reaction", "ia_param", "derived"),
+    "VDSD": ("ia_var", "derived", "surrogate", "derived"),
 }
 
 
@@ -180,7 +182,7 @@ class GraphAPI(Scenario):
 
         kinds = CONFIGS[self.cfg]
         names = self.names()
-        out_name = {i: (names[i] if kinds[i] != "surrogate" else f"{names[i]}_o") for i in range(3)}
+        out_name = {i: (names[i] if kinds[i] != "surrogate" else f"{names[i]}_o") for i in range(len(kinds))}
         m = Model()
         m.add_parameter("k", ctx.real("p_k"))
         m.add_variable("x", ctx.real("i_x"))
@@ -206,9 +208,10 @@ class GraphAPI(Scenario):
         return m
 
     def classify(self):
-        adj = {i: {j for (a, j) in self.edges if a == i} for i in range(3)}
+        n = len(CONFIGS[self.cfg])
+        adj = {i: {j for (a, j) in self.edges if a == i} for i in range(n)}
         cyc = False
-        for i in range(3):
+        for i in range(n):
             seen, stack = set(), list(adj[i])
             while stack:
                 j = stack.pop()
@@ -288,4 +291,18 @@ def scenarios(tier, seed):
                     for o in (orders if not cyc else [orders[idx % 6]]):
                         scs.append(GraphAPI(cfg, es, None, o))
                     scs.append(GraphAPI(cfg, es, idx % 3, orders[(idx + 1) % 6]))
+    if tier != "quick":
+        # four components: every DAG over a fixed topological numbering x every declaration order, plus one back edge
+        pot4 = [(i, j) for i in range(4) for j in range(i)]
+        orders4 = list(it.permutations(range(4)))
+        for cfg in ("DRPD", "VDSD"):
+            for r in range(len(pot4) + 1):
+                for es in it.combinations(pot4, r):
+                    es = frozenset(es)
+                    idx = sum(1 << (4 * i + j) for i, j in es)
+                    for o in (orders4 if cfg == "DRPD" else orders4[idx % 3::3]):
+                        scs.append(GraphAPI(cfg, es, None, o))
+                    back = (0, 3)
+                    scs.append(GraphAPI(cfg, es | {back}, None, orders4[idx % 24]))
+                    scs.append(GraphAPI(cfg, es, idx % 4, orders4[(idx + 5) % 24]))
     return scs
